@@ -816,7 +816,8 @@ fn u_vtok(rep: &mut Report, tier: Tier, eval: Eval<'_>) {
 /// document is valid and must be accepted; from the limit on a refusal is permitted
 pub fn nest_docs() -> Vec<String> {
     let mut out = Vec::new();
-    for d in [1usize, 2, 3, 40, 77, 78, 79, 80, 81, 82, 100, 128] {
+    let l = crate::common::calibrated_limit();
+    for d in [1usize, 2, 3, l / 2, l - 3, l - 2, l - 1, l, l + 1, l + 2, l + 20, l + 48] {
         out.push(format!("k = {}1{}\n", "[".repeat(d), "]".repeat(d)));
         out.push(format!("k = {}{}\n", "[".repeat(d), "]".repeat(d)));
         out.push(format!("k = {}1{}\n", "{a = ".repeat(d), "}".repeat(d)));
@@ -842,5 +843,5 @@ fn u_nest(rep: &mut Report, _tier: Tier, eval: Eval<'_>) {
     let cases = nest_docs();
     let f = |s: &str, acc: &mut Acc| eval(s.as_bytes(), "U-nest", acc);
     let (total, acc) = sweep_list(&cases, &f);
-    rep.absorb("U-nest", "9 nesting constructs + dotted keys below 1-3 outer levels x depths {1, 2, 3, 40, 77-82, 100, 128}", total, true, t0, acc);
+    rep.absorb("U-nest", "9 nesting constructs + dotted keys below 1-3 outer levels x depths {1, 2, 3, L/2, L-3 .. L+2, L+20, L+48} around the limit L the library enforces (80)", total, true, t0, acc);
 }
